@@ -45,11 +45,14 @@ def run_one(sim, params):
     nfc = core.import_nfc()
     import nfc.tag
     typ = params["type"]
-    op = sim.wpick("op", [(5, "write"), (2, "format"), (3, "wipe")] + ([(2, "format-write")] if typ in ("t1", "t2") else []))
+    op = sim.wpick("op", [(5, "write"), (2, "format"), (3, "wipe"), (3, "write-retry")]
+                   + ([(2, "format-write")] if typ in ("t1", "t2") else []))
     kw = {}
+    if op == "write-retry" and typ == "t2" and sim.chance("retry.t2.big", 0.5):
+        kw["big"] = kw["two_sectors"] = True          # more than one sector: a failed SECTOR SELECT is part of what can precede the retry
     if typ == "t1" and op != "write":
         kw["product_layout"] = True
-    case = gen.GENERATORS[typ](sim, big=params.get("big", False), **kw)
+    case = gen.GENERATORS[typ](sim, **dict({"big": params.get("big", False)}, **kw))
     desc = case.describe()
     allowed = set(case.allowed_changes())
     with case.world(nfc) as w:
@@ -98,6 +101,57 @@ def run_one(sim, params):
                 sim.probe("format-write.raised_%s" % type(e).__name__)
                 return
             sim.probe("format-write.done")
+        elif op == "write-retry":
+            # a write that fails with a persisting air interface error at some command, then the application assigns
+            # the same octets once more through the same NDEF object: what was written in both attempts is judged
+            from dsim.w1 import device as w1dev
+            new_len, nc = gen.pick_len(sim, "newlen", ndef.capacity)
+            if typ == "t2" and kw.get("big") and sim.chance("retry.long", 0.7):
+                new_len = min(ndef.capacity, sim.pick("retry.len", [1100, 1300, 1900]))     # reaches into the next sector
+            new = sim.bytes("new", new_len, tag=3)
+            kind = sim.pick("retry.kind", [w1dev.CORRUPT_RSP, w1dev.PROTOCOL_ERR, w1dev.LOSE_RSP, w1dev.NOISE, w1dev.NOISE])
+            burst = sim.pick("retry.burst", [1, 3, 4])
+            where = sim.wpick("retry.where", [(2, "index"), (5, "sector-select")]) if typ == "t2" and kw.get("big") else "index"
+            start = sim.choose("retry.at", 40) if sim.chance("retry.early", 0.6) else sim.choose("retry.at.late", 600)
+            st = {"n": 0, "from": None, "fired": 0}
+            base_idx = w.device.exchanges
+
+            def fate(idx, data):
+                if where == "index":
+                    if st["from"] is None and idx - base_idx >= start:
+                        st["from"] = idx
+                elif st["from"] is None and st.get("c2"):
+                    st["from"] = idx            # the exchange that follows SECTOR SELECT packet 1 is packet 2
+                st["c2"] = bool(data) and data[:2] == b"\xC2\xFF"
+                if st["from"] is not None and idx - st["from"] < burst:
+                    k = kind
+                    if typ == "t2" and data is not None and len(data) == 4 and idx == st["from"] and where == "sector-select" \
+                            and kind == w1dev.LOSE_RSP:
+                        k = w1dev.CORRUPT_RSP      # no answer to packet 2 *is* the acknowledgement: not a fault a reader can see
+                    st["fired"] += 1
+                    return k
+                return w1dev.OK
+            w.device.fate = fate
+            detail = "write %d with %s x%d at %s+%d, then once more" % (new_len, w1dev.FATE_NAMES[kind], burst, where, start)
+            first = "ok"
+            try:
+                ndef.octets = new
+            except nfc.tag.TagCommandError:
+                first = "TagCommandError"
+            except Exception as e:
+                sim.probe("write-retry.first_raised_%s(C16 territory)" % type(e).__name__)
+                first = type(e).__name__
+            w.device.fate = None
+            if st["fired"]:
+                sim.fault(w1dev.FATE_NAMES[kind], st["fired"])
+                sim.probe("write-retry.fault_fired")
+            sim.probe("write-retry.first_" + first)
+            if first != "ok":
+                try:
+                    ndef.octets = new
+                    sim.probe("write-retry.second_ok")
+                except Exception as e:
+                    sim.probe("write-retry.second_raised_%s" % type(e).__name__)
         elif op == "write":
             new_len, nc = gen.pick_len(sim, "newlen", ndef.capacity)
             new = sim.bytes("new", new_len, tag=3)
